@@ -322,7 +322,7 @@ where
         hists.push(vec![(5, w), (5, w / 2), (3, w + 30)]);
     }
     // requested acceptance statistics over the whole stated range (0.5, 0.99), not only the customary 0.6..0.95
-    let deltas: Vec<f64> = if ctx.tier.thorough() { vec![0.51, 0.6, 0.8, 0.95, 0.985] } else { vec![0.6, 0.9, 0.55, 0.985] };
+    let deltas: Vec<f64> = if ctx.tier.thorough() { vec![0.6, 0.8, 0.95, 0.51, 0.985] } else { vec![0.6, 0.9, 0.55, 0.985] };
     let seeds: Vec<u64> = if ctx.tier.thorough() { vec![1, 2] } else { vec![1] };
     let mut cfgs = vec![];
     for ti in 0..tg.len() {
@@ -346,6 +346,10 @@ where
                     }
                     // quick tier: the out-of-the-customary-range requests (0.55, 0.985) on the first target, short histories
                     if !ctx.tier.thorough() && (delta < 0.6 || delta > 0.95) && !(ti == 0 && !f32s && h.iter().map(|r| r.0 + r.1).sum::<usize>() <= 40) {
+                        continue;
+                    }
+                    // thorough tier: the out-of-the-customary-range requests on the regular targets, histories of <= 250 transitions, one seed
+                    if ctx.tier.thorough() && (delta < 0.6 || delta > 0.95) && !(ti < 3 && seed == 1 && h.iter().map(|r| r.0 + r.1).sum::<usize>() <= 250) {
                         continue;
                     }
                     cfgs.push(Cfg { target: ti, delta, seed, runs: h.clone() });
@@ -468,7 +472,7 @@ pub fn run(ctx: &Ctx) {
         acceptance_grid(ctx);
         return;
     }
-    ctx.rule("E3: all histories of <= 2 (quick) / 3 (thorough) run(n_collect,n_discard) calls over {(1,0),(2,1),(3,2),(2,5),(1,12)} plus long warm-ups {0,1,2,10,50,200,2000}, on one chain, for 3 targets x requested acceptance {0.51,0.6,0.8,0.95,0.985} (quick: 0.6, 0.9 everywhere, 0.55 and 0.985 on short histories of one target) x seeds; the adaptation state (m, eps, eps_bar, H-bar, mu) recorded after EVERY transition is compared with the dual-averaging recurrence evaluated on the previously observed state and the transition's own acceptance statistic; eps0 against both published variants of the doubling/halving heuristic. states = distinct (target, delta, seed, history) nodes; transitions = NUTS transitions checked");
+    ctx.rule("E3: all histories of <= 2 (quick) / 3 (thorough) run(n_collect,n_discard) calls over {(1,0),(2,1),(3,2),(2,5),(1,12)} plus long warm-ups {0,1,2,10,50,200,2000}, on one chain, for 3 targets x requested acceptance {0.6,0.8,0.95} everywhere and {0.51,0.985} on histories of <= 250 transitions of the regular targets (quick: 0.6, 0.9 everywhere, 0.55 and 0.985 on short histories of one target) x seeds; the adaptation state (m, eps, eps_bar, H-bar, mu) recorded after EVERY transition is compared with the dual-averaging recurrence evaluated on the previously observed state and the transition's own acceptance statistic; eps0 against both published variants of the doubling/halving heuristic. states = distinct (target, delta, seed, history) nodes; transitions = NUTS transitions checked");
     let worst = std::sync::Mutex::new(Worst(0.0));
     histories::<f64, BF64>(ctx, "f64 / NdArray<f64>", false, &worst);
     histories::<f32, BF32>(ctx, "f32 / NdArray<f32>", true, &worst);
